@@ -49,7 +49,10 @@ func hex(r rune) (int, bool) {
 	return 0, false
 }
 
-// hexChars returns every way to read \xH.. at in[i:] as ascii_char (2 digits) or unicode_char (4 to 8 digits).
+// hexChars returns the ways to read \xH.. at in[i:] as ascii_char (2 digits) or unicode_char (4 to 8 digits). A run of
+// exactly 2 or exactly 4 hexadecimal digits (followed by something else) is read in one way - as every reader of the
+// documentation reads it - although the context-free grammar would also allow `\x03` followed by the characters `B2`;
+// a run of 3 digits is 2 digits and a character; a longer run can be cut in several places and all of them count.
 func hexChars(in []rune, i int) (out []struct {
 	r rune
 	n int
@@ -57,18 +60,38 @@ func hexChars(in []rune, i int) (out []struct {
 	if i+1 >= len(in) || in[i] != '\\' || in[i+1] != 'x' {
 		return nil
 	}
-	v := 0
-	for k := 0; k < 8 && i+2+k < len(in); k++ {
-		d, ok := hex(in[i+2+k])
-		if !ok {
+	d := 0
+	for d < 8 && i+2+d < len(in) {
+		if _, ok := hex(in[i+2+d]); !ok {
 			break
 		}
-		v = v*16 + d
-		if n := k + 1; (n == 2 || n >= 4) && v <= 0x10FFFF {
+		d++
+	}
+	val := func(n int) rune {
+		v := 0
+		for k := 0; k < n; k++ {
+			h, _ := hex(in[i+2+k])
+			v = v*16 + h
+		}
+		return rune(v)
+	}
+	add := func(n int) {
+		if v := val(n); v <= 0x10FFFF {
 			out = append(out, struct {
 				r rune
 				n int
-			}{rune(v), 2 + n})
+			}{v, 2 + n})
+		}
+	}
+	switch {
+	case d < 2:
+	case d < 4:
+		add(2)
+	case d == 4:
+		add(4)
+	default:
+		for n := 4; n <= d; n++ {
+			add(n)
 		}
 	}
 	return out
